@@ -262,6 +262,36 @@ def cyclic_roots(nodes):
     return on_cycle, reach_cycle
 
 
+def opaque_reachable(nodes, root):
+    """an unwrappable atom (or one that is itself a container holding one) is reachable from root"""
+    seen, stack = {root}, [root]
+    while stack:
+        x = stack.pop()
+        nd = nodes[x]
+        if nd[0] == "A":
+            if "POpaque" in repr(qc.dump(nd[1])):
+                return True
+        else:
+            for y in nd[2]:
+                if y not in seen:
+                    seen.add(y)
+                    stack.append(y)
+    return False
+
+
+def aliased_values(g, rng, n):
+    """tree-shaped to the eye, but with the same object in several places (no cycle)"""
+    out = []
+    for _ in range(n):
+        x = g.plain(rng.choice([1, 2]))
+        while not isinstance(x, (list, dict)):
+            x = rng.choice([[g.plain(1)], {"k": g.plain(1)}, [1, 2], {}])
+        y = rng.choice([lambda: [x, x], lambda: {"a": x, "b": x}, lambda: (x, [x]), lambda: [[x], {"k": x}, x],
+                        lambda: {"a": [x, x], "b": {"c": x}}, lambda: [x, (x, x), {1: x}]])()
+        out.append(y if rng.random() < 0.6 else [y, x, y])
+    return out
+
+
 def encode_heap(nodes, roots, objs):
     out = ["heap", str(2 * len(nodes) + 4), str(len(nodes))]
     for i, nd in enumerate(nodes):
@@ -448,7 +478,8 @@ def run(chk):
                 "incl. NaN payloads and -0.0, complex incl. -0.0 parts, str incl. non-BMP, bytes, keywords, lists, tuples, "
                 "sets and dicts with hashable members/keys incl. nested tuples), depth <= 4; (b) the same with existing models "
                 "(all classes, raw children) and unwrappable objects nested inside; (c) instances of subclasses (separate "
-                "stream); (d) object graphs of 1-8 nodes (lists, dicts, tuples, sets, model sequences, shared subobjects, back "
+                "stream); (b') acyclic values with the same list / dict object in several places (must be promoted like any tree); "
+                "(d) object graphs of 1-8 nodes (lists, dicts, tuples, sets, model sequences, shared subobjects, back "
                 "edges from lists/dicts: direct and indirect cycles) promoted from several roots one after the other; "
                 "the same promotions repeated in worker threads (one after the other) with identical outcomes demanded; "
                 "hy.models._seen read after every call; every successful result of the interleaved history compared with a "
@@ -471,6 +502,10 @@ def run(chk):
     trees += [("mixed", g.mixed(rng.choice([1, 2, 3]), bad=rng.choice([0.0, 0.0, 0.08]))) for _ in range(n_mixed)]
     trees += [("plain", v) for v in HASHABLE_ATOMS] + [("plain", x) for x in ([], (), set(), {}, [[]], {1: {2: {3: set()}}},
                                                                              {complex(1, -0.0): -0.0}, [float("nan")] * 2)]
+    trees += [("aliased", v) for v in aliased_values(g, rng, 300 if thorough else 60)]
+    x0 = [1, 2]
+    d0 = {"k": 9}
+    trees += [("aliased", [x0, x0]), ("aliased", {"a": d0, "b": d0}), ("aliased", [[x0], [x0, {"z": x0}]])]
     rng.shuffle(trees)
     for origin, v in trees:
         d = qc.dump(v)
@@ -512,7 +547,7 @@ def run(chk):
                 if qc.cnorm(d) != d:
                     chk.count("complex-imag-normalised(0+im)")
             history.append(({"kind": "tree", "dump": d}, qc.canon(res[1], True)))
-        elif not has_opaque and not has_models and origin == "plain":
+        elif not has_opaque and not has_models and origin in ("plain", "aliased"):
             chk.fail("representable-value-not-promoted", inp, res, "a model tree", how)
         elif has_opaque and res != ("Err", "EWrapper"):
             chk.fail("unwrappable-object-not-reported", inp, res, "HyWrapperError", how)
@@ -571,6 +606,9 @@ def run(chk):
             inp = {"origin": "graph", "nodes": repr(nodes)[:600], "root": r}
             how = "props/c29.py: objs = build_graph(nodes); hy.as_model(objs[root])"
             chk.count("graph-root:" + ("cyclic" if r in reach_cycle else "acyclic") + ":" + (res[0] if res[0] == "Ok" else res[1]))
+            if r not in reach_cycle and not opaque_reachable(nodes, r) and res[0] != "Ok":
+                # shared but acyclic sub-objects (x = [1]; [x, x]; diamonds) are ordinary representable values
+                chk.fail("acyclic-structure-with-shared-parts-not-promoted", inp, res, "a model tree", how)
             if r in reach_cycle and res[0] == "Ok":
                 chk.fail("self-referential-structure-promoted", inp, res, "HyWrapperError", how)
             if r in reach_cycle and res[0] == "Err" and res[1] not in ("ECycle", "EWrapper", "EValueBrackets"):
